@@ -887,9 +887,14 @@ func (m *bsMachine) doCloseBuffer(t *rapid.T) {
 			}
 		}
 	}
+	// contents stay readable: what is there after Close is what was there before, minus at most a
+	// prefix that the cleaner removed before the close took effect (commits made while resolving blockers)
 	post := m.b.Slice()
-	if fmt.Sprint(pre) != fmt.Sprint(post) {
+	if len(post) > len(pre) || fmt.Sprint(pre[len(pre)-len(post):]) != fmt.Sprint(post) {
 		m.fail("C12/contents-after-close", "Slice changed across Close: %v -> %v", pre, post)
+	}
+	if len(blockers) == 0 && len(post) != len(pre) {
+		m.fail("C12/contents-after-close", "Slice shrank across Close although nothing was committed meanwhile: %v -> %v", pre, post)
 	}
 	m.simple = false
 	m.settle()
